@@ -11,8 +11,8 @@ using namespace vf; using namespace mxh;
 
 static Bytes msg_bytes(int idx, size_t n) { Bytes b(n); for (size_t i = 0; i < n; i++) b[i] = (uint8_t) (0x20 + ((idx * 131 + i * 7 + (i >> 8)) % 90)); return b; }
 
-enum Op { OP_NONE, OP_FLIP, OP_TYPE, OP_VERSION, OP_LENFIELD, OP_TRUNC_FIX, OP_EXTEND_FIX, OP_DROP, OP_DUP, OP_SWAP, OP_REPLAY, OP_REFLECT, OP_PARALLEL, OP_IV, OP_INJECT_RANDOM, OP_CUT_TAIL, OP_N };
-static const char *op_name[] = { "none", "flip-bit", "set-type", "set-version", "set-length-field", "truncate+fix-length", "extend+fix-length", "drop", "duplicate", "swap", "replay-earlier", "reflect-own-record", "splice-parallel-session", "overwrite-iv/nonce", "inject-random-record", "cut-tail" };
+enum Op { OP_NONE, OP_FLIP, OP_TYPE, OP_VERSION, OP_LENFIELD, OP_TRUNC_FIX, OP_EXTEND_FIX, OP_DROP, OP_DUP, OP_SWAP, OP_REPLAY, OP_REFLECT, OP_PARALLEL, OP_IV, OP_INJECT_RANDOM, OP_CUT_TAIL, OP_INJECT_CCS, OP_N };
+static const char *op_name[] = { "none", "flip-bit", "set-type", "set-version", "set-length-field", "truncate+fix-length", "extend+fix-length", "drop", "duplicate", "swap", "replay-earlier", "reflect-own-record", "splice-parallel-session", "overwrite-iv/nonce", "inject-random-record", "cut-tail", "inject-plaintext-ccs" };
 
 struct Session {
     Pair p; int ver; Suite su; bool dtls;
@@ -64,7 +64,7 @@ static void run_script(Tape &t, Ctx &c, int ver, const Suite &su, bool c2s, std:
     // --- apply the edit
     std::vector<Bytes> E = O; size_t n = O.size();
     size_t i = opa % n; Bytes &r = E[i];
-    bool cut = false; size_t cut_at = 0;
+    bool cut = false; size_t cut_at = 0; bool ccs_injected = false;
     switch (op) {
     case OP_NONE: break;
     case OP_FLIP: { size_t bit = opb % (r.size() * 8); r[bit / 8] ^= (uint8_t) (1 << (bit % 8)); break; }
@@ -84,6 +84,11 @@ static void run_script(Tape &t, Ctx &c, int ver, const Suite &su, bool c2s, std:
         if (s.dtls) { for (int j = 3; j < 11; j++) x.push_back(j < 5 ? O[0][j] : (uint8_t) (opc >> (j * 3))); }
         size_t L = opc % 80; x.push_back((uint8_t) (L >> 8)); x.push_back((uint8_t) L); for (size_t j = 0; j < L; j++) x.push_back((uint8_t) (opc * 2654435761u >> (j % 24))); E.insert(E.begin() + i, x); break; }
     case OP_CUT_TAIL: cut = true; break;
+    case OP_INJECT_CCS: { // 1-3 well-formed plaintext change_cipher_spec records in front of record i. TLS 1.3 receivers skip such records,
+        // TLS <= 1.2 receivers reject them; either way the delivered stream must stay an exact prefix (no death requirement in TLS 1.3).
+        size_t k = 1 + opb % 3; Bytes ccs; for (size_t j = 0; j < k; j++) { ccs.push_back(20); ccs.push_back(O[0][1]); ccs.push_back(O[0][2]); if (s.dtls) for (int q = 3; q < 11; q++) ccs.push_back(q == 10 ? (uint8_t) (200 + j) : O[0][q]); ccs.push_back(0); ccs.push_back(1); ccs.push_back(1); }
+        if (opc & 1) { E[i].insert(E[i].begin(), ccs.begin(), ccs.end()); } else E.insert(E.begin() + i, ccs);
+        ccs_injected = true; break; }
     }
     // --- reference model
     size_t p = 0; while (p < E.size() && p < O.size() && E[p] == O[p]) p++;
@@ -112,6 +117,15 @@ static void run_script(Tape &t, Ctx &c, int ver, const Suite &su, bool c2s, std:
             VF_CHECK(ok, "dtls-delivered-datagram-not-sent-or-duplicated", "DTLS delivered %zu bytes (%s) that are not an as-yet-undelivered peer message; %s", m.size(), hex(m.data(), m.size(), 16).c_str(), desc.c_str()); }
         if (op == OP_NONE) VF_CHECK(s.rcv->delivered_msgs.size() == pt.size(), "unedited-stream-not-delivered", "unedited DTLS datagrams: delivered %zu of %zu; %s", s.rcv->delivered_msgs.size(), pt.size(), desc.c_str());
     } else {
+        if (ccs_injected && ver == TLS13) {
+            // a skipped CCS is not a modification of a protected record: everything the peer sent may still arrive, nothing else may
+            Bytes all; for (auto &m : pt) all.insert(all.end(), m.begin(), m.end());
+            bool pfx = s.rcv->delivered.size() <= all.size() && std::equal(s.rcv->delivered.begin(), s.rcv->delivered.end(), all.begin());
+            VF_CHECK(pfx, "delivered-data-beyond-authentic-prefix", "after %s: delivered %zu bytes that are not a prefix of the %zu bytes the peer sent (delivered starts %s); %s", op_name[op], s.rcv->delivered.size(), all.size(), hex(s.rcv->delivered.data(), s.rcv->delivered.size(), 16).c_str(), desc.c_str());
+            c.count("tls13-ccs-injection-cases"); if (s.rcv->delivered.size() == all.size()) c.count("tls13-ccs-skipped-and-stream-intact");
+            c.nontrivial(fmt("%d|%04x|%d|ccs", ver, su.id, c2s));
+            return;
+        }
         bool is_prefix = s.rcv->delivered.size() <= expect.size() && std::equal(s.rcv->delivered.begin(), s.rcv->delivered.end(), expect.begin());
         VF_CHECK(is_prefix && s.rcv->delivered.size() == expect.size(), !is_prefix ? "delivered-data-beyond-authentic-prefix" : "authentic-prefix-not-delivered",
                  "delivered %zu bytes, reference model says exactly %zu (records before first edit: %zu of %zu); dead=%d; %s", s.rcv->delivered.size(), expect.size(), p, O.size(), dead, desc.c_str());
